@@ -16,7 +16,7 @@ ASSUMPTIONS = ["user resolution heuristics only produce sequences of the local m
                "the exception is raised from inside a specification's evaluate(); other interruption points "
                "(KeyboardInterrupt between two statements of the solver) are not enumerated"]
 
-OPS = ["resolve", "resolve", "optimize", "exh_resolve", "rnd_resolve", "exh_optimize", "rnd_optimize"]
+OPS = ["resolve", "resolve", "optimize", "exh_resolve", "rnd_resolve", "exh_optimize", "rnd_optimize", "resolve_filtered"]
 
 
 def failing_direct_cases(rng, n):
@@ -68,6 +68,8 @@ def base_cases(rng, n):
     for i in range(n):
         op = OPS[i % len(OPS)]
         small = op.startswith(("exh_", "rnd_"))
+        if op == "resolve_filtered" and False:
+            pass
         d = problems.rand_small_problem(rng, objectives=("optimize" in op)) if small \
             else problems.rand_solver_problem(rng, objectives=(op == "optimize"))
         pre = ("resolve",) if op == "optimize" else ()
@@ -94,6 +96,10 @@ def oracle(results, out):
             out.append(dict(kind="length-changed-after-failure", input=inp, detail=p.sequence))
         if not solverprops.in_space(p):
             out.append(dict(kind="hard-restriction-broken-after-failure", input=inp, detail=p.sequence))
+        if len(p.constraints) != len(case["desc"]["constraints"]) or len(p.objectives) != len(case["desc"].get("objectives", [])):
+            out.append(dict(kind="specifications-lost-after-failure", input=inp,
+                            detail="%d constraints / %d objectives left of %d / %d" % (len(p.constraints), len(p.objectives),
+                                                                                        len(case["desc"]["constraints"]), len(case["desc"].get("objectives", [])))))
         if p.sequence_before != seq0:
             out.append(dict(kind="sequence-before-changed", input=inp, detail=p.sequence_before))
         if case["op"] == "exh_resolve" and info["outcome"] == "NoSolution" and p.sequence != start:
